@@ -32,7 +32,8 @@ var Check = &vrt.Check{
 		"message was compared with the model (listing or GetOutbound result), i.e. the mailbox was not empty all along; distinct = distinct (mode, cast, operation sequence)",
 	Assumptions: []string{
 		"preconditions documented by the interface are respected: Prepare is called first on every new DirHandler; SetSent and SetDeferred only for MIDs currently in the outbox (SetSent log.Fatalf's otherwise, by design); SetUnread only for messages listed from the inbox",
-		"a MID that has been moved to sent/ is not added to the outbox again (a MID identifies one message)",
+		"a MID that has been moved to sent/ may be queued again (a corrected copy, a re-send): until that copy is marked sent the model holds the earlier copy in sent/ and the new one in out/ " +
+			"(two copies, each in one place); once it is marked sent the MID is in sent/ only, with the new content",
 		"listing contents are compared modulo the headers the mailbox itself adds (X-FilePath, X-Unread); GetOutbound results are compared with the stored message minus all three private headers",
 		"GetOutbound is compared as a set (the interface promises no order)",
 		"archive/ has no writer in the package; it is only observed to stay empty and loadable",
@@ -103,9 +104,9 @@ const (
 	// ProcessInbound(m[i], X) in one call, where X cannot be stored (its Date header is in no layout the
 	// serialiser accepts): m[i] is stored, X is not, and the call must say so (a non-nil error)
 	opInboundBad = "inboundbad"
-	opUnread   = "unread"
-	opRead     = "read"
-	opRestart  = "restart"
+	opUnread     = "unread"
+	opRead       = "read"
+	opRestart    = "restart"
 )
 
 type op struct {
@@ -170,7 +171,18 @@ func outSpec(o op) mboxkit.MsgSpec {
 }
 
 func inSpec(m int, o op) mboxkit.MsgSpec {
-	return mboxkit.MsgSpec{MID: mids[m], From: "N0RMT", To: []string{"N0DST"}, BodyLen: o.L, FileLen: o.F, Tag: "in" + o.T}
+	sp := mboxkit.MsgSpec{MID: mids[m], From: "N0RMT", To: []string{"N0DST"}, BodyLen: o.L, FileLen: o.F, Tag: "in" + o.T}
+	// the second and third identifiers arrive as group messages: repeated To / Cc (and File) header fields
+	switch m {
+	case 1:
+		sp.To, sp.Cc, sp.Files = []string{"N0DST", "N0DS2", "user@example.com"}, []string{"N0CC1", "N0CC2"}, 2
+		if sp.FileLen == 0 {
+			sp.FileLen = 33
+		}
+	case 2:
+		sp.Cc, sp.Files = []string{"N0CC1", "N0CC2", "N0CC3"}, 3
+	}
+	return sp
 }
 
 // ---------------------------------------------------------------------------------------------
@@ -197,8 +209,6 @@ func newModel(sendOnly bool) *model {
 func (m *model) allowed(o op) bool {
 	mid := mids[o.M]
 	switch o.K {
-	case opAdd:
-		return m.sent[mid] == nil
 	case opSent, opDefer:
 		return m.out[mid] != nil
 	case opUnread, opRead:
